@@ -148,6 +148,18 @@ func (s *Sim) Quiesce() {
 	if s.inc == nil {
 		s.newIncarnation()
 	}
+	if s.Cfg.UnpauseAtQuiesce {
+		for _, ky := range s.Store.Keys(KSet) {
+			set := s.Store.tables[KSet][ky].(*asv1.StatefulSet)
+			if set.Annotations[annPaused] == "true" {
+				Mutate(s.Store, KSet, set.Namespace, set.Name, func(o *asv1.StatefulSet) bool {
+					delete(o.Annotations, annPaused)
+					return true
+				})
+				s.count("probe.pause_lifted_at_quiesce")
+			}
+		}
+	}
 	if s.revDirty {
 		// somebody other than the controller wrote ControllerRevisions during the
 		// chaos phase. The controller does not watch revisions (upstream neither), so
